@@ -5,15 +5,20 @@ from pyvc.unit import run_unit_symbolic
 mod = importlib.import_module(sys.argv[1])
 names = sys.argv[2:]
 units = [getattr(mod, n) for n in names] if names else mod.UNITS
+import os
 for U in units:
+  for sh in range(getattr(U, 'shards', 1) if isinstance(getattr(U, 'shards', 1), int) else 1):
+    if os.environ.get('SHARD') and int(os.environ['SHARD']) != sh:
+        continue
     u = U()
+    u.shard = sh
     for mode in u.modes:
         t = time.time()
         r = run_unit_symbolic(u, mode)
         st = {}
         for o in r.obligations:
             st[o.status] = st.get(o.status, 0) + 1
-        print(u.name, mode, 'paths', r.paths, 'nonvac', r.nonvacuous, 'oblig', st, 'unsup', r.unsupported[:3], '%.2fs' % (time.time() - t), 'q', r.queries)
+        print(u.name, 'shard', sh, mode, 'paths', r.paths, 'nonvac', r.nonvacuous, 'oblig', st, 'unsup', r.unsupported[:3], '%.2fs' % (time.time() - t), 'q', r.queries)
         seen = set()
         for o in r.obligations:
             if o.status != 'discharged' and o.name not in seen:
